@@ -15,8 +15,6 @@ open OpM
 section
 variable {μ ι : Type} (M : MemOps μ ι)
 
-def frameA (f : Frame ι) : Int := f.runLimit + stackCost M.len f.data + stackCost M.len f.alt
-
 def SameCtl (f f' : Frame ι) : Prop :=
   f'.prog = f.prog ∧ f'.depth = f.depth ∧ f'.expRes = f.expRes ∧ f'.pc = f.pc
 
@@ -79,6 +77,30 @@ def optionK {ρ α : Type} (x : Option α) (A : α → ρ) (B : ρ) : ρ :=
     (f : α → σ → Res σ β) :
     (optionK x A B).bindK f = optionK x (fun a => (A a).bindK f) (B.bindK f) := by
   cases x <;> rfl
+
+/-- generic postcondition on an outcome (success / error; a panic satisfies everything) -/
+def ResP {σ α : Type} (Q : α → σ → Prop) (E : Err → σ → Prop) : Res σ α → Prop
+  | .ok a s => Q a s
+  | .err e s => E e s
+  | .panic => True
+
+@[simp] theorem ResP_ok {σ α : Type} (Q : α → σ → Prop) (E : Err → σ → Prop) (a : α) (s : σ) :
+    ResP Q E (.ok a s) ↔ Q a s := Iff.rfl
+@[simp] theorem ResP_err {σ α : Type} (Q : α → σ → Prop) (E : Err → σ → Prop) (e : Err) (s : σ) :
+    ResP Q E (.err e s : Res σ α) ↔ E e s := Iff.rfl
+@[simp] theorem ResP_panic {σ α : Type} (Q : α → σ → Prop) (E : Err → σ → Prop) :
+    ResP Q E (.panic : Res σ α) := trivial
+@[simp] theorem ResP_ite {σ α : Type} (Q : α → σ → Prop) (E : Err → σ → Prop) (c : Prop) [Decidable c]
+    (x y : Res σ α) : ResP Q E (if c then x else y) ↔ (c → ResP Q E x) ∧ (¬ c → ResP Q E y) := by
+  split <;> simp_all
+@[simp] theorem ResP_exceptK {σ α γ : Type} (Q : α → σ → Prop) (E : Err → σ → Prop) (x : Except Err γ)
+    (A : γ → Res σ α) (B : Err → Res σ α) :
+    ResP Q E (exceptK x A B) ↔ (∀ a, x = .ok a → ResP Q E (A a)) ∧ (∀ e, x = .error e → ResP Q E (B e)) := by
+  cases x <;> simp
+@[simp] theorem ResP_optionK {σ α γ : Type} (Q : α → σ → Prop) (E : Err → σ → Prop) (x : Option γ)
+    (A : γ → Res σ α) (B : Res σ α) :
+    ResP Q E (optionK x A B) ↔ (∀ a, x = some a → ResP Q E (A a)) ∧ (x = none → ResP Q E B) := by
+  cases x <;> simp
 
 section
 variable {μ ι : Type} (M : MemOps μ ι)
